@@ -1,6 +1,8 @@
 ---- MODULE MC_KernelExact ----
 EXTENDS KernelExact, Json
+CONSTANT Deep        \* FALSE: the quick family; TRUE (thorough tier): more point sets
 PointSets == { << <<0>>, <<1>>, <<3>> >>, << <<-1>>, <<2>> >>, << <<0, 0>>, <<1, 2>>, <<2, -1>> >>, << <<0, 1>>, <<1, 0>> >> }
+             \cup (IF Deep THEN { << <<0>>, <<2>> >>, << <<1>>, <<-1>>, <<0>> >>, << <<2>> >>, << <<0, 0>>, <<0, 1>> >>, << <<1, 1>>, <<-1, 0>>, <<0, 2>> >> } ELSE {})
 Queries(d) == IF d = 1 THEN << <<1>>, <<-2>> >> ELSE << <<1, 1>>, <<0, -1>> >>
 Pre(s, d) == [i \in 1..d |-> s[i]]
 Se1(d) == [k |-> "se", ja |-> 0, m |-> Pre(<<1, 2>>, d)]
